@@ -107,6 +107,17 @@ func (prop) Run(c core.Case) core.Outcome {
 		out.Key = exp
 		out.Checks = append(out.Checks, core.Check{Tag: "M", What: "roundtrip", Req: req, Exp: exp})
 		wf := c.Args["wf"] == "1"
+		if wf && r.parseClass == "ok" {
+			// follow-up wp-c07b: on every well-formed image the hypotheses of the round-trip theorems of
+			// Props/C07.lean (okTree, pwTree, TopPol, the side condition savedOkAll of the fixed-point theorem),
+			// evaluated by the driver on the parsed (and, for edits, edited) tree, hold — so the theorems speak
+			// about the cases that are run, and `second-save-identical` below is their conclusion observed
+			hreq := "hyp " + core.Hex(in)
+			if ed != nil {
+				hreq = fmt.Sprintf("hypedit %s %s %s %s", ed.kind, ed.old, ed.new, core.Hex(in))
+			}
+			out.Checks = append(out.Checks, core.Check{Tag: "M", What: "theorem-hypotheses-hold", Req: hreq, Exp: "ok", Sig: "hyp"})
+		}
 		if wf || c.Op == "file" {
 			if ed == nil {
 				if wf {
@@ -405,6 +416,40 @@ func (prop) Gen(r *rand.Rand, tier string) []core.Case {
 			continue
 		}
 		c := imgCase("edit-"+e.kind+"-"+kind, img, "1")
+		c.Args["edit"], c.Args["old"], c.Args["new"] = e.kind, e.old, e.new
+		cs = append(cs, c)
+	}
+	// dependency expressions of MM / SMM drivers (EFI_SECTION_MM_DEPEX, 0x1C) and of PEIMs (0x1B): every
+	// depex section of the image gets the type, then one of them is edited (seeded defect c07-2: the MM
+	// case dropped from Assemble's leaf switch — only an edit shows it)
+	nd := 24
+	if tier == "thorough" {
+		nd = 400
+	}
+	for i := 0; i < nd; i++ {
+		img, kind := genImage(r, tier)
+		ty := uint8(0x1c)
+		tag := "mmdepex"
+		if i%4 == 3 {
+			ty, tag = 0x1b, "peidepex"
+		}
+		for _, v := range volumes(img) {
+			for _, f := range v.Files {
+				for _, s := range f.Secs {
+					if s.Kind == "sd" {
+						s.Type = ty
+					}
+				}
+			}
+		}
+		var e *edit
+		for try := 0; try < 24 && (e == nil || e.kind != "depex"); try++ {
+			e = pickEdit(r, img)
+		}
+		if e == nil || e.kind != "depex" {
+			continue
+		}
+		c := imgCase("edit-"+tag+"-"+kind, img, "1")
 		c.Args["edit"], c.Args["old"], c.Args["new"] = e.kind, e.old, e.new
 		cs = append(cs, c)
 	}
